@@ -23,8 +23,11 @@ class Budget(Exception):
     pass
 
 
-def explore(env, td_row, max_nodes=200000, max_depth=200, want_reward=True, reward_fn=None):
-    """returns (leaves: list[(actions tuple, reward float|None)], complete: bool, stats)."""
+def explore(env, td_row, max_nodes=200000, max_depth=200, want_reward=True, reward_fn=None, companion=None):
+    """returns (leaves: list[(actions tuple, reward float|None)], complete: bool, stats).
+    companion: optional one-row instance placed at ROW 0 of every replay batch; it takes its first feasible action at every
+    step and is ignored otherwise. What the explored instance can reach must not depend on it (rules read from 'the first
+    batch element' instead of per instance only show in such company)."""
     frontier = [()]
     leaves = []
     nodes = 0
@@ -37,11 +40,21 @@ def explore(env, td_row, max_nodes=200000, max_depth=200, want_reward=True, rewa
         nodes += F
         if nodes > max_nodes:
             return leaves, False, dict(nodes=nodes, reason="budget", dead_ends=dead_ends)
-        td = env.reset(torch.cat([td_row.clone() for _ in range(F)], 0) if F > 1 else td_row.clone())
+        rows_ = [td_row.clone() for _ in range(F)]
+        if companion is not None:
+            rows_ = [companion.clone()] + rows_
+        td = env.reset(torch.cat(rows_, 0) if len(rows_) > 1 else rows_[0])
         pref = torch.tensor(frontier, dtype=torch.long).reshape(F, depth)
         for t in range(depth):
-            td.set("action", pref[:, t].clone())
+            a_ = pref[:, t].clone()
+            if companion is not None:
+                m0 = td["action_mask"][0].reshape(-1)
+                a0 = int(torch.nonzero(m0).flatten()[0]) if bool(m0.any()) else 0
+                a_ = torch.cat((torch.tensor([a0], dtype=torch.long), a_))
+            td.set("action", a_)
             td = env.step(td)["next"]
+        if companion is not None:
+            td = td[1:]
         done = row_done(td) if "done" in td.keys() else torch.zeros(F, dtype=torch.bool)
         if depth == 0:
             done = torch.zeros(F, dtype=torch.bool)
